@@ -367,7 +367,13 @@ func (w *World) Deploy(name string, c *Compiled, data any) *Deployed {
 	w.E.AddNewBlock(w.T, tx)
 	aer := w.E.GetTxExecResult(w.T, tx.Hash())
 	if aer.VMState != vmstate.Halt {
-		hpanic("deploy %s: %s", name, aer.FaultException)
+		// the deployment carries the committee's and the Alphabet's witness, which is all a contract of this tree asks
+		// for while it is deployed (Container registers its TLD in NNS under the committee's witness): see SetupRefused
+		ss := []string{"CM"}
+		if w.Alpha != w.Comm {
+			ss = append(ss, "AL")
+		}
+		panic(SetupRefused{Contract: name, Method: "(deployment)", Signers: ss, Fault: aer.FaultException, N: w.N})
 	}
 	h := state.CreateContractHash(w.Comm, c.NEF.Checksum, c.Manifest.Name)
 	cs := w.BC.GetContractState(h)
